@@ -63,6 +63,13 @@ func genC42(r *Rand, n int, tier string, emit func(string)) {
 		case 1:
 			emit(genC42ErrorsFull(r))
 			continue
+		case 2:
+			tail := ""
+			for k := r.Intn(4); k > 0; k-- {
+				tail += fmt.Sprintf(" %s:g:0:%d:0:0:-", Pick(r, "s", "bs"), pipeLat(r))
+			}
+			emit(pipeTurnScenario(r, r.Bool(), tail+Pick(r, "", " stopbg", " settle pc")))
+			continue
 		}
 		dw := Pick(r, 1, 2, 3, 4, 8, 16, 1+r.Intn(16))
 		vw := Pick(r, 0, 1, 2, 4, 16, r.Intn(17))
